@@ -249,6 +249,12 @@ structure Query where
 deriving Repr, DecidableEq
 
 -- ------------------------------------------------------------------ small helpers
+/-- `consume_token(&Token::X)` for a payload-free token: the token and the rest -/
+def eatSym (ts : List Tok) (s : Sym) : Option (Tok × List Tok) :=
+  match ts with
+  | t :: rest => if t.isSym s then some (t, rest) else none
+  | [] => none
+
 /-- the peeked token is a word whose keyword is one of `ks` -/
 def peekAnyKw (ts : List Tok) (ks : List Nat) : Bool := ks.any (peekKw ts)
 
@@ -344,17 +350,20 @@ def qualScan (acc : List Tok) : List Tok → QualRes
 def wildcardForeign (c : QCfg) (ts : List Tok) : Bool :=
   peekAnyKw ts [K.ILIKE, K.EXCLUDE, K.REPLACE, K.RENAME] || (c.wildcardExcept && peekKw ts K.EXCEPT)
 
-/-- `parse_select_item` -/
+/-- `parse_select_item` when the item is not a wildcard: `parse_expr`, the `SELECT FROM` check,
+`parse_optional_alias(RESERVED_FOR_COLUMN_ALIAS)` -/
+def itemViaExpr (c : QCfg) (f d : Nat) (ts : List Tok) : Res SelectItem :=
+  match parseE c f d ts with
+  | .error er => .error er
+  | .ok (e, rest) =>
+    if isBareFrom e then .error (syn "an expression, found: from")
+    else
+      match optAlias reservedForColumnAlias rest with
+      | .error er => .error er
+      | .ok (al, rest') => .ok (.expr e al, rest')
+
+/-- `parse_select_item` (with `parse_wildcard_expr`) -/
 def selectItem (c : QCfg) (f d : Nat) (ts : List Tok) : Res SelectItem :=
-  let viaExpr : Res SelectItem :=
-    match parseE c f d ts with
-    | .error er => .error er
-    | .ok (e, rest) =>
-      if isBareFrom e then .error (syn "an expression, found: from")
-      else
-        match optAlias reservedForColumnAlias rest with
-        | .error er => .error er
-        | .ok (al, rest') => .ok (.expr e al, rest')
   match ts with
   | t :: rest =>
     match t with
@@ -364,17 +373,20 @@ def selectItem (c : QCfg) (f d : Nat) (ts : List Tok) : Res SelectItem :=
       | .sym .Period :: rest' =>
         match qualScan [t, .sym .Period] rest' with
         | .wild toks r => if wildcardForeign c r then .error .unsupported else .ok (.qualified toks, r)
-        | .notWild => viaExpr
+        | .notWild => itemViaExpr c f d ts
         | .err => .error (syn "an identifier or a '*' after '.'")
-      | _ => viaExpr
-    | _ => viaExpr
-  | [] => viaExpr
+      | _ => itemViaExpr c f d ts
+    | _ => itemViaExpr c f d ts
+  | [] => itemViaExpr c f d ts
 
 /-- `GROUPING SETS`, `CUBE`, `ROLLUP`, `()` at the head of a GROUP BY element (dialects with
 `supports_group_by_expr`): outside the fragment -/
+def emptyTupleAhead : List Tok → Bool
+  | .sym .LParen :: .sym .RParen :: _ => true
+  | _ => false
+
 def groupByForeign (c : QCfg) (ts : List Tok) : Bool :=
-  c.groupByExpr && (peekAnyKw ts [K.GROUPING, K.CUBE, K.ROLLUP] ||
-    (match ts with | .sym .LParen :: .sym .RParen :: _ => true | _ => false))
+  c.groupByExpr && (peekAnyKw ts [K.GROUPING, K.CUBE, K.ROLLUP] || emptyTupleAhead ts)
 
 /-- `parse_group_by_expr` -/
 def groupByElem (c : QCfg) (f d : Nat) (ts : List Tok) : Res Expr :=
@@ -531,6 +543,20 @@ inductive JoinHead
   /-- join keywords consumed -/
   | join (k : JoinKind) (toks rest : List Tok)
 
+/-- `LEFT` / `RIGHT` consumed (`t`): `OUTER JOIN`, `JOIN`, or `SEMI` / `ANTI` (outside the fragment) -/
+def leftRightTail (k : JoinKind) (t : Tok) (r : List Tok) : Except Err JoinHead :=
+  match eatKw r K.OUTER with
+  | some (t2, r2) =>
+    match eatKw r2 K.JOIN with
+    | some (t3, r3) => .ok (.join k [t, t2, t3] r3)
+    | none => .error (syn "JOIN")
+  | none =>
+    if peekKw r K.SEMI || peekKw r K.ANTI then .error .unsupported
+    else
+      match eatKw r K.JOIN with
+      | some (t2, r2) => .ok (.join k [t, t2] r2)
+      | none => .error (syn "OUTER, SEMI, ANTI or JOIN")
+
 /-- the keyword part of one round of the loop in `parse_table_and_joins` -/
 def joinHead (ts : List Tok) : Except Err JoinHead :=
   if peekKw ts K.GLOBAL then .error .unsupported
@@ -541,43 +567,38 @@ def joinHead (ts : List Tok) : Except Err JoinHead :=
     | some (t2, r2) => .ok (.join .cross [t1, t2] r2)
     | none => if peekKw r1 K.APPLY then .error .unsupported else .error (syn "JOIN or APPLY after CROSS")
   | none =>
-  if peekKw ts K.OUTER then
-    (match ts with
-     | _ :: r1 => if peekKw r1 K.APPLY then .error .unsupported else .error (syn "APPLY")
-     | [] => .error (syn "APPLY"))
-  else if peekKw ts K.ASOF || peekKw ts K.NATURAL then .error .unsupported
+  match eatKw ts K.OUTER with
+  | some (_, r1) => if peekKw r1 K.APPLY then .error .unsupported else .error (syn "APPLY")
+  | none =>
+  if peekKw ts K.ASOF || peekKw ts K.NATURAL then .error .unsupported
   else
-  match ts with
-  | [] => .ok .stop
-  | t :: r =>
-    if t.isKw K.INNER then
-      match eatKw r K.JOIN with
-      | some (t2, r2) => .ok (.join .inner [t, t2] r2)
+  match eatKw ts K.INNER with
+  | some (t, r) =>
+    match eatKw r K.JOIN with
+    | some (t2, r2) => .ok (.join .inner [t, t2] r2)
+    | none => .error (syn "JOIN")
+  | none =>
+  match eatKw ts K.JOIN with
+  | some (t, r) => .ok (.join .inner [t] r)
+  | none =>
+  match eatKw ts K.LEFT with
+  | some (t, r) => leftRightTail .left t r
+  | none =>
+  match eatKw ts K.RIGHT with
+  | some (t, r) => leftRightTail .right t r
+  | none =>
+  match eatKw ts K.FULL with
+  | some (t, r) =>
+    match eatKw r K.OUTER with
+    | some (t2, r2) =>
+      match eatKw r2 K.JOIN with
+      | some (t3, r3) => .ok (.join .full [t, t2, t3] r3)
       | none => .error (syn "JOIN")
-    else if t.isKw K.JOIN then .ok (.join .inner [t] r)
-    else if t.isKw K.LEFT || t.isKw K.RIGHT then
-      let k : JoinKind := if t.isKw K.LEFT then .left else .right
-      match r with
-      | [] => .error (syn "OUTER, SEMI, ANTI or JOIN")
-      | t2 :: r2 =>
-        if t2.isKw K.OUTER then
-          match eatKw r2 K.JOIN with
-          | some (t3, r3) => .ok (.join k [t, t2, t3] r3)
-          | none => .error (syn "JOIN")
-        else if t2.isKw K.SEMI || t2.isKw K.ANTI then .error .unsupported
-        else if t2.isKw K.JOIN then .ok (.join k [t, t2] r2)
-        else .error (syn "OUTER, SEMI, ANTI or JOIN")
-    else if t.isKw K.FULL then
-      match eatKw r K.OUTER with
-      | some (t2, r2) =>
-        match eatKw r2 K.JOIN with
-        | some (t3, r3) => .ok (.join .full [t, t2, t3] r3)
-        | none => .error (syn "JOIN")
-      | none =>
-        match eatKw r K.JOIN with
-        | some (t2, r2) => .ok (.join .full [t, t2] r2)
-        | none => .error (syn "JOIN")
-    else .ok .stop
+    | none =>
+      match eatKw r K.JOIN with
+      | some (t2, r2) => .ok (.join .full [t, t2] r2)
+      | none => .error (syn "JOIN")
+  | none => .ok .stop
 
 /-- `parse_join_constraint(false)` -/
 def joinCstr (c : QCfg) (f d : Nat) (ts : List Tok) : Res JoinCstr :=
@@ -730,9 +751,9 @@ def valuesParenAhead (ts : List Tok) : Bool :=
 def factorHead (c : QCfg) (ts : List Tok) : Except Err FactorHead :=
   if peekAnyKw ts [K.LATERAL, K.TABLE, K.UNNEST] then .error .unsupported
   else
-  match ts with
-  | .sym .LParen :: rest => .ok (.paren (.sym .LParen) rest)
-  | _ =>
+  match eatSym ts .LParen with
+  | some (lp, rest) => .ok (.paren lp rest)
+  | none =>
     if valuesParenAhead ts then .error .unsupported
     else
     match objectName [] ts with
